@@ -20,8 +20,28 @@ from sasmodels import core, direct_model  # noqa: E402
 
 q = np.array([0.01, 0.05, 0.2])
 out = {"pid": os.getpid(), "workers": {}}
+builder = None
 try:
-    if prebuild != "none":
+    if prebuild.startswith("thread:"):
+        # another thread of this interpreter is in the middle of building a model (the scripted compiler holds it
+        # there) at the moment the workers are forked
+        import threading
+        box = {}
+
+        def build():
+            try:
+                m0 = core.load_model(prebuild.split(":", 1)[1])
+                box["Iq"] = [float(v) for v in direct_model.call_kernel(m0.make_kernel([q]), {})]
+            except BaseException as exc:  # noqa
+                box["error"] = repr(exc)[:500]
+        builder = threading.Thread(target=build)
+        builder.start()
+        tag0 = os.environ.get("RTM_C18_TAG", "p")
+        t0 = time.monotonic()
+        while not os.path.exists(os.path.join(ctrl, tag0 + ".at.0")) and builder.is_alive() and time.monotonic() - t0 < 60:
+            time.sleep(0.001)
+        out["forked_while_thread_building"] = builder.is_alive()
+    elif prebuild != "none":
         m0 = core.load_model(prebuild)
         out["parent_Iq"] = [float(v) for v in direct_model.call_kernel(m0.make_kernel([q]), {})]
     out["parent_ok"] = True
@@ -59,12 +79,39 @@ t0 = time.monotonic()
 while not all(os.path.exists(os.path.join(ctrl, t + ".ready")) for t in pids) and time.monotonic() - t0 < 60:
     time.sleep(0.001)
 open(os.path.join(ctrl, "release"), "w").close()
+if builder is not None:
+    builder.join(120)
+    if "error" in box or builder.is_alive():
+        out["parent_ok"] = False
+        out["parent_error"] = box.get("error", "the building thread did not finish")
+    else:
+        out["parent_Iq"] = box.get("Iq")
+deadline = time.monotonic() + 90
 for tag, pid in pids.items():
-    try:
-        _, status = os.waitpid(pid, 0)
-    except ChildProcessError:
-        status = -1
+    status = None
+    while time.monotonic() < deadline:
+        try:
+            done, status = os.waitpid(pid, os.WNOHANG)
+        except ChildProcessError:
+            status = -1
+            break
+        if done:
+            break
+        status = None
+        time.sleep(0.01)
+    if status is None:
+        # no progress within the budget (in logical terms: the parent's own build has long finished)
+        import signal
+        try:
+            os.kill(pid, signal.SIGKILL)
+            os.waitpid(pid, 0)
+        except OSError:
+            pass
+        out["workers"][tag] = {"ok": False, "error": "worker made no progress for 90 s after release (killed)", "status": "hung"}
+        continue
     path = os.path.join(ctrl, tag + ".result")
+    if tag in out["workers"]:
+        continue
     if os.path.exists(path):
         out["workers"][tag] = json.load(open(path))
     else:
